@@ -7,7 +7,8 @@
 #   combine_calls_base                            -> three matchers + two folds + combine_calls/combine_args:
 #                                                    Pinned (inner operator not tested, parentheses dropped) / Repaired
 #   combine_startswith_endswith / _isinstance_issubclass -> make_call_matcher, check_calls_same_instance, the four class attributes
-#   use_generator.leave_Call                      -> Pinned (args[0], other arguments dropped) / Repaired (exactly one argument)
+#   use_generator.leave_Call                      -> Pinned (args[0], other arguments dropped) / Repaired (exactly one argument) /
+#                                                    Nested (`return updated_node`) / NestedUpdated (+ comprehension of the updated node)
 #   use_set_literal.leave_Call, fix_hasattr_call.on_result_found + detector_pattern -> one known shape each
 import copy as _copy
 
@@ -165,7 +166,8 @@ custom("kernel_combine_inst", "src/core_codemods/combine_isinstance_issubclass.p
 # ---- use_generator / use_set_literal / fix_hasattr_call --------------------------------------------
 def _generator_fn(tree, repo):
     v = _variant("kernel_generator", tree, "UseGenerator", ["leave_Call"], [])
-    return {"Pinned": "pinned_generator", "Repaired": "repaired_generator"}[v]
+    return {"Pinned": "pinned_generator", "Repaired": "repaired_generator", "Nested": "nested_generator",
+            "NestedUpdated": "nested_updated_generator"}[v]
 
 
 custom("kernel_generator", "src/core_codemods/use_generator.py", _KPROPS, "generator_cfg_v", "generator_cfg", "repaired_generator",
